@@ -179,6 +179,8 @@ run_directed = directed.run
 
 def cases(tier, rng):
     thorough = tier == "thorough"
+    for c in directed.rejected_constructions_do_not_accumulate_cases():
+        yield "directed-rejected-constructions-do-not-accumulate", c
     for c in directed.closed_from_another_context_cases():
         yield "directed-closed-from-another-context", c
     for c in directed.proxies_and_nested_constructors_cases():
